@@ -74,6 +74,16 @@ fn main() {
         i += 1;
     }
 
+    // a replay runs in the tier the case was found in (some clauses only exist in the thorough tier)
+    if let Some(path) = &replay {
+        if let Ok(txt) = std::fs::read_to_string(path) {
+            if let Ok(v) = serde_json::from_str::<serde_json::Value>(&txt) {
+                if v["tier"].as_str() == Some("thorough") {
+                    tier = Tier::Thorough;
+                }
+            }
+        }
+    }
     // strategies are built without a context: tier-dependent generator bounds read this
     std::env::set_var("VERIF_TIER_HINT", tier.as_str());
     kit::refhash::self_test();
